@@ -146,8 +146,15 @@ theorem Step.cells (h : Heap) (c : CellsAll h) : ∀ s : Step, CellsAll (s.run h
   | .setArray n ids => update_cells h _ _ c
   | .setObject n kv => update_cells h _ _ c
   | .setNode n v => setNode_cells h n v c
+  | .newNull _ => ((CellsS.refl h).alloc _ (Or.inl rfl)).2 c
+  | .newNumeric _ _ => ((CellsS.refl h).alloc _ (Or.inr ⟨by simp, by simp⟩)).2 c
+  | .newString _ _ => ((CellsS.refl h).alloc _ (Or.inr ⟨by simp, by simp⟩)).2 c
+  | .newBool _ _ => ((CellsS.refl h).alloc _ (Or.inr ⟨by simp, by simp⟩)).2 c
+  | .newArray _ => ((CellsS.refl h).alloc _ (Or.inl rfl)).2 c
+  | .newObject _ => ((CellsS.refl h).alloc _ (Or.inl rfl)).2 c
 
-/-- heaps reachable by steps (edit requests, Clone, SetArray, SetObject, SetNode — on any nodes that exist at that moment) and reads,
+/-- heaps reachable by steps (edit requests, Clone, SetArray, SetObject, SetNode — on any nodes that exist at that moment — and the
+constructors NullNode, NumericNode, StringNode, BoolNode, ArrayNode(nil), ObjectNode(nil)) and reads,
 in any order -/
 inductive ReachedS : Heap → Heap → Prop
   | refl (h : Heap) : ReachedS h h
